@@ -51,6 +51,7 @@ fn case_json(p: &Pos) -> J {
 }
 
 fn check(p: &Pos, ev: &mut Evaluator, prev: &mut Vec<(Pos, i32)>, st: &mut Stats, rng: &mut Rng) {
+    crate::report::note_case(&p.to_fen());
     let b = eng::board_from_pos(p);
     // fresh evaluator = the reference for purity
     let fresh = match engine_call(|| Evaluator::new().evaluate(&b)) {
